@@ -1,9 +1,11 @@
 package main
 
 import (
+	"fmt"
 	"go/constant"
 	"go/token"
 	"go/types"
+	"os"
 	"sort"
 	"strconv"
 	"strings"
@@ -59,6 +61,16 @@ func runC06(c *Ctx) {
 	c.c06RefusalsBeforeChanges()
 	c.c06RawRemovalOnlyOfWhatIsEmpty()
 	c.c06OverlapByIdentity()
+	// Z23: the API comes in variants (package-level function and method, with and without context, patterns or limits); most
+	// are one-line forwarders
+	c.rule("Z23", "every one-line forwarder of package filesystem hands each of its parameters to the call it forwards to, exactly once: a variant does what the operation does, with the arguments it was given", 90)
+	c.forwardersKeepTheirArguments("Z23", []string{fsPkgRel}, nil,
+		"called through that variant the operation ignores an argument (patterns, limits, a flag) or uses one argument for two — the values returned and the resulting tree are not those of the operation the caller asked for")
+	// Z24: who may call the bare copy workers
+	c.c06WorkersOnlyBehindTheGuards()
+	if os.Getenv("GUCHECK_EXPLORE") == "forwarders" {
+		c.exploreForwarders()
+	}
 	// Z21: "the values returned, the error kinds and the resulting tree are those of the reference model": an operation that
 	// failed half-way says so. In everything remove, clean, move and copy reach inside the package, an error assigned to a
 	// variable is read before it is overwritten (the obligation C04/N8 = C09/A17, evaluated for the operations of C06).
@@ -1839,4 +1851,54 @@ func (c *Ctx) c06OverlapByIdentity() {
 			})
 		}
 	}
+}
+
+// exploreForwarders is a development aid (GUCHECK_EXPLORE=forwarders): lists the pure forwarders of the module that drop or
+// duplicate a parameter.
+func (c *Ctx) exploreForwarders() {
+	for _, sp := range c.SSAPkgs {
+		if !strings.HasPrefix(sp.Pkg.Path(), modPath) {
+			continue
+		}
+		all, bad := forwarders(c.srcFuncs(shortPkg(sp.Pkg.Path())))
+		if len(all) > 0 {
+			fmt.Fprintf(os.Stderr, "forwarders %s: %d\n", shortPkg(sp.Pkg.Path()), len(all))
+		}
+		for _, b := range bad {
+			fmt.Fprintf(os.Stderr, "  BAD %s dropped=%v twice=%v at %s\n", fname(b.f), b.dropped, b.twice, c.ipos(b.call))
+		}
+	}
+}
+
+// c06WorkersOnlyBehindTheGuards (Z24): the bare copy workers open the destination for writing straight away: everything
+// that keeps a copy from truncating its own source, and that creates the missing parent of the destination, is done by
+// CopyBetweenFSWithExclusionRegexes before it calls them. Decided: the workers are called by that function and by each other
+// (the folder worker recurses through the guarded function) only.
+func (c *Ctx) c06WorkersOnlyBehindTheGuards() {
+	c.rule("Z24", "the bare copy workers (copyFileBetweenFS…, copyFolderBetweenFS…) are called only by the guarded entry point CopyBetweenFSWithExclusionRegexes and by the move fall-back for files: no variant reaches them around the overlap guards and the creation of the destination's parent", 1)
+	n := 0
+	bad := ""
+	for _, f := range c.srcFuncs(fsPkgRel) {
+		allInstrs(f, func(in ssa.Instruction) {
+			cc := callCommon(in)
+			if cc == nil {
+				return
+			}
+			g := staticCallee(cc)
+			if g == nil || !(strings.HasPrefix(g.Name(), "copyFileBetweenFS") || strings.HasPrefix(g.Name(), "copyFolderBetweenFS")) {
+				return
+			}
+			n++
+			switch outermost(f).Name() {
+			case "CopyBetweenFSWithExclusionRegexes":
+			default:
+				if strings.HasPrefix(outermost(f).Name(), "copyFileBetweenFS") || strings.HasPrefix(outermost(f).Name(), "copyFolderBetweenFS") {
+					return
+				}
+				bad = c.ipos(in) + " (" + fname(outermost(f)) + ")"
+			}
+		})
+	}
+	c.check(n >= 2 && bad == "", "Z24", fsPkgRel+"/workers-behind-the-guards", "-", "the workers are called by the guarded entry point (and by each other) only",
+		"a copy worker is called directly at "+bad+": that variant copies without the guards — onto itself (`f` to `f`, `d/f` to `d/./f`, a hard link) it truncates its source on the OS backend, and it does not create the missing parent directory of the destination, which the in-memory backend creates by itself: the two backends part")
 }
